@@ -105,6 +105,20 @@ def cases(draw):
             if draw(st.booleans()) and draw(st.booleans()):
                 flags.append(f)
         trackers = draw(st.booleans()) and draw(st.booleans())
+        if trackers:
+            # 1-4 trackers at generated positions (fractions of the box); in
+            # half of the cases two or three of them share a grid cell (the
+            # manager then wraps them in a MultiTracker)
+            nt = draw(st.integers(1, 4))
+            frac = st.sampled_from([0.125, 0.25, 0.375, 0.5, 0.625, 0.75, 0.875])
+            pos = [[draw(frac), draw(frac), draw(frac)] for _ in range(nt)]
+            if nt >= 2 and draw(st.booleans()):
+                pos[1] = [x + 1e-3 for x in pos[0]]
+                if nt >= 3 and draw(st.booleans()):
+                    pos[2] = list(pos[0])
+            trackers = {"positions": pos,
+                        "types": [draw(st.sampled_from(["Spectrum", "Spectrum", "WeightedSpectrum", "Absorption"]))
+                                  for _ in range(nt)]}
         return {"mode": mode, "threads": threads, "flags": flags, "ion": ion, "trackers": trackers,
                 "tool": draw(st.sampled_from(["valgrind", "asan", "asan"]))}
     rhd = rhd_case(draw, mode == "rhd-radiation" or (mode == "rhd-restart" and draw(st.booleans())))
@@ -183,11 +197,22 @@ def check_run(case, workdir):
             params["TaskBasedIonizationSimulation"]["enable trackers"] = True
             params["TrackerManager"] = {"filename": "trackers.yml"}
             a, s = ion["anchor"], ion["sides"]
-            files["trackers.yml"] = (
-                "number of trackers: 2\n\ntracker[0]:\n  type: Spectrum\n  position: %s\n\n"
-                "tracker[1]:\n  type: Spectrum\n  position: %s\n  number of bins: 50\n" % (
-                    cmirun.fmt_vec([a[i] + 0.5 * s[i] for i in range(3)], "m"),
-                    cmirun.fmt_vec([a[i] + 0.25 * s[i] for i in range(3)], "m")))
+            tr = case["trackers"]
+            if tr is True:  # (cases saved before the trackers were generated)
+                tr = {"positions": [[0.5, 0.5, 0.5], [0.25, 0.25, 0.25]], "types": ["Spectrum", "Spectrum"]}
+            lines = ["number of trackers: %d" % len(tr["positions"]), ""]
+            for i, (fr, ty) in enumerate(zip(tr["positions"], tr["types"])):
+                lines += ["tracker[%d]:" % i, "  type: " + ty,
+                          "  position: " + cmirun.fmt_vec([a[k] + fr[k] * s[k] for k in range(3)], "m")]
+                if ty == "Spectrum" and i % 2 == 1:
+                    lines.append("  number of bins: 50")
+                lines.append("")
+            files["trackers.yml"] = "\n".join(lines) + "\n"
+            cells = set()
+            for fr in tr["positions"]:
+                cells.add(tuple(int(fr[k] * ion["ncell"][k]) for k in range(3)))
+            if len(cells) < len(tr["positions"]):
+                r.label("trackers-sharing-a-cell")
         c2 = dict(ion)
         c2["files"] = files
         cmirun.write_case(workdir, c2, params)
@@ -240,7 +265,7 @@ def check_run(case, workdir):
 
 SUBS = [
     pbt.Sub("whole_runs", cases(), check_run, quick=96, thorough=2400, shrink_budget=6,
-            rule="mode in {task-based photoionization, task-based RHD with radiation, hydro only, stop+restart}; optional components: live output with each sub-output, trackers, hydro mask, turbulence forcing, external point mass, diffuse field, continuous sources (with a discrete distribution that has no luminosity in half of the mixed cases), subgrid copies, task plots, a task pool that wraps around within a step (radiation runs), -e, --no-initial-output; 1-4 threads; <= 12^3 cells, <= 2000 packets, <= 4 steps; each run under valgrind memcheck (1/3) or the ASan+UBSan build (2/3); non-trivial: >= 2 optional components or restart mode",
+            rule="mode in {task-based photoionization, task-based RHD with radiation, hydro only, stop+restart}; optional components: live output with each sub-output, 1-4 trackers of every type (half of the cases with trackers sharing a grid cell), hydro mask, turbulence forcing, external point mass, diffuse field, continuous sources (with a discrete distribution that has no luminosity in half of the mixed cases), subgrid copies, task plots, a task pool that wraps around within a step (radiation runs), -e, --no-initial-output; 1-4 threads; <= 12^3 cells, <= 2000 packets, <= 4 steps; each run under valgrind memcheck (1/3) or the ASan+UBSan build (2/3); non-trivial: >= 2 optional components or restart mode",
             floors={"tool-valgrind": 0.15, "tool-asan": 0.3}),
 ]
 
